@@ -22,7 +22,7 @@ TASK: produce ONE realistic change (a bug a maintainer could plausibly introduce
 {extra}
 Also write a demonstration: a single C file demo.c (compiled as: gcc -I include -I include_prv demo.c _build/src/libjls.a -lm -lpthread -o demo ; run from the worktree root) that exits 0 on the unchanged library and exits non-zero (assert/explicit check; a crash or time-out also counts but an explicit check is preferred) on the changed library, by exhibiting the violation of the property through the public API (or by observing the file bytes / write calls where the property is about those). Keep temp files under /tmp and delete them.
 
-Procedure: read the relevant sources in the worktree to find a good spot; make the change; build; run the full test suite serially and confirm 100% pass; build and run demo against the changed library (must fail) and against the unchanged library (git stash or a second build dir: must pass). Iterate until all of that holds - verify it yourself, do not assume.
+Procedure: read the relevant sources in the worktree to find a good spot; make the change; build; run the full test suite serially and confirm 100% pass; build and run demo against the changed library (must fail) and against the unchanged library (must pass). For the unchanged library use a SECOND BUILD DIRECTORY built from `git archive HEAD | tar -x -C <scratch dir>` (or `git diff > x.diff; git apply -R x.diff; build; git apply x.diff`); do NOT use `git stash`: the stash is shared by all worktrees of the repository and other people work in sibling worktrees. Iterate until all of that holds - verify it yourself, do not assume.
 
 Deliverables, in /tmp/seedout_{tag}/ :
   patch.diff   (git diff of the worktree against HEAD, library sources only - not the demo, not build output)
